@@ -76,6 +76,8 @@ def run_impl(histories, profile="debug", snap=False, timeout=600, exe=None, env=
             break           # the build is thoroughly broken: twenty crashing histories are enough to report
         inp = format_histories(todo)
         args = [exe] + (["--snap"] if snap else [])
+        # a batch normally takes seconds; a hang (an endless loop in the implementation) is cut off early
+        timeout = min(timeout, max(90, int(0.05 * sum(len(o) for _, o in todo))))
         try:
             if profile == "asan" and env is None:
                 env = dict(os.environ, ASAN_OPTIONS="detect_leaks=0:abort_on_error=1")
@@ -85,6 +87,7 @@ def run_impl(histories, profile="debug", snap=False, timeout=600, exe=None, env=
             stderr = p.stderr
         except subprocess.TimeoutExpired as ex:
             rc = "timeout"
+            crashes += 6      # at most four hangs per batch
             stdout = (ex.stdout or b"").decode(errors="replace") if isinstance(ex.stdout, bytes) else (ex.stdout or "")
             stderr = ""
         part = parse_output(stdout)
